@@ -40,6 +40,8 @@ type EncodeCfg struct {
 	Compression avro.Compression
 	BlockSize   int
 	Plan        FlushPlan
+	// NoScratch: do not swap byte slices for scratch copies around Encode (values shared between goroutines)
+	NoScratch bool
 }
 
 // EncodeTwin is the reflective twin of Encoder[T]: same public building
@@ -83,7 +85,12 @@ func EncodeTwin(w io.Writer, rt reflect.Type, vals []reflect.Value, cfg EncodeCf
 		}
 	}
 	for i, v := range vals {
+		restore := func() {}
+		if !cfg.NoScratch {
+			restore = ScratchBytes(v)
+		}
 		c.Write(wb, unsafe.Pointer(v.UnsafeAddr()))
+		restore()
 		count++
 		if wb.Len() >= cfg.BlockSize {
 			if err := flush(); err != nil {
@@ -105,6 +112,86 @@ func EncodeTwin(w io.Writer, rt reflect.Type, vals []reflect.Value, cfg EncodeCf
 }
 
 // EncodeStatic drives a real Encoder[T].
+// ScratchBytes replaces every non-empty []byte reachable from v (through exported struct fields, pointers,
+// slices and map values) by a private copy and returns a function that overwrites those copies and puts the
+// originals back. Called around Encode it does what a caller does who reuses one buffer for every row: once
+// Encode has returned, the bytes it was given are the caller's again.
+func ScratchBytes(v reflect.Value) func() {
+	var undo []func()
+	var walk func(v reflect.Value, depth int)
+	walk = func(v reflect.Value, depth int) {
+		if depth > 8 {
+			return
+		}
+		switch v.Kind() {
+		case reflect.Pointer:
+			if !v.IsNil() {
+				walk(v.Elem(), depth+1)
+			}
+		case reflect.Struct:
+			if v.Type().PkgPath() != "" && v.NumField() > 0 && !v.Type().Field(0).IsExported() {
+				return
+			}
+			for i := 0; i < v.NumField(); i++ {
+				if v.Type().Field(i).IsExported() {
+					walk(v.Field(i), depth+1)
+				}
+			}
+		case reflect.Slice:
+			if v.Type().Elem().Kind() == reflect.Uint8 {
+				if v.Len() > 0 && v.CanSet() {
+					orig := v.Bytes()
+					tmp := append(make([]byte, 0, len(orig)), orig...)
+					origV := reflect.ValueOf(orig)
+					if v.Type() != origV.Type() {
+						origV = origV.Convert(v.Type())
+					}
+					v.SetBytes(tmp)
+					ScratchedSlices++
+					undo = append(undo, func() {
+						for k := range tmp {
+							tmp[k] = 0xEE
+						}
+						v.Set(origV)
+					})
+				}
+				return
+			}
+			for i := 0; i < v.Len() && i < 64; i++ {
+				walk(v.Index(i), depth+1)
+			}
+		case reflect.Map:
+			if v.Type().Elem().Kind() == reflect.Slice && v.Type().Elem().Elem().Kind() == reflect.Uint8 && v.Type().Elem() == reflect.TypeOf([]byte(nil)) {
+				for _, key := range v.MapKeys() {
+					orig := v.MapIndex(key).Bytes()
+					if len(orig) == 0 {
+						continue
+					}
+					tmp := append(make([]byte, 0, len(orig)), orig...)
+					key := key
+					v.SetMapIndex(key, reflect.ValueOf(tmp))
+					ScratchedSlices++
+					undo = append(undo, func() {
+						for k := range tmp {
+							tmp[k] = 0xEE
+						}
+						v.SetMapIndex(key, reflect.ValueOf(orig))
+					})
+				}
+			}
+		}
+	}
+	walk(v, 0)
+	return func() {
+		for _, f := range undo {
+			f()
+		}
+	}
+}
+
+// ScratchedSlices counts the byte slices handed to the encoder as scratch copies (evidence).
+var ScratchedSlices int64
+
 func EncodeStatic[T any](w io.Writer, vals []reflect.Value, cfg EncodeCfg) error {
 	enc, err := avro.NewEncoderFor[T](w, cfg.Compression, cfg.BlockSize)
 	if err != nil {
@@ -116,7 +203,13 @@ func EncodeStatic[T any](w io.Writer, vals []reflect.Value, cfg EncodeCfg) error
 		}
 	}
 	for i, v := range vals {
-		if err := enc.Encode(v.Addr().Interface().(*T)); err != nil {
+		restore := func() {}
+		if !cfg.NoScratch {
+			restore = ScratchBytes(v)
+		}
+		err := enc.Encode(v.Addr().Interface().(*T))
+		restore()
+		if err != nil {
 			return err
 		}
 		for k := 0; k < cfg.Plan.After[i]; k++ {
